@@ -88,6 +88,12 @@ type dNode struct {
 	sink   *logSink
 	logBuf bytes.Buffer
 	since  time.Time
+	stopped map[string]bool // beacon ids stopped through the control API
+}
+
+type oldShare struct {
+	who string
+	b   []byte
 }
 
 type epochInfo struct {
@@ -122,6 +128,7 @@ type daemonEngine struct {
 	wireMu sync.Mutex
 	keepIO bool
 	served int
+	oldShares []oldShare
 }
 
 // ---------------------------------------------------------------- endpoint
@@ -390,7 +397,25 @@ func (e *daemonEngine) stopDaemon(n *dNode) {
 		return
 	}
 	e.w.Unregister(n.addr)
-	dd.Stop(context.Background())
+	done := make(chan struct{})
+	go func() {
+		defer close(done)
+		dd.Stop(context.Background())
+	}()
+	select {
+	case <-done:
+	case <-time.After(30 * time.Second):
+		// Stop is wedged (it needs a lock that something holds for ever). The run must still
+		// end: stop what keeps time alive without the daemon's help and silence the node.
+		e.rec.Count("probe:daemon_stop_blocked", 1)
+		e.rec.Ev("daemon_stop_blocked", n.addr, "")
+		for _, id := range dd.VerifBeaconIDs() {
+			if bp := dd.VerifBeaconProcess(id); bp != nil {
+				go bp.Stop(context.Background())
+			}
+		}
+		n.clock.Freeze()
+	}
 	e.rec.Ev("daemon_stop", n.addr, "")
 	e.rec.Count("fault:stop", 1)
 }
@@ -550,6 +575,11 @@ func (e *daemonEngine) collectEpoch(id string, members []int, epochNo int, old *
 			e.rec.Violate("C06", "share-index-mismatch", "index", "beacon %s epoch %d: node%d holds share index %d but the group lists it differently", id, epochNo, i, sh.Share.I)
 		}
 		shares = append(shares, sh.Share)
+		if e.keepIO {
+			if b, err := sh.Share.V.MarshalBinary(); err == nil {
+				e.oldShares = append(e.oldShares, oldShare{n.addr, b})
+			}
+		}
 	}
 	ep.group = ref
 	if ref != nil && len(shares) >= ref.Threshold {
